@@ -649,6 +649,7 @@ KERNELS += [
     P("PlanKeyId", ["C11", "C06", "C05"], "_blob.py", "KeyIdentifier", "Gkdi.keyIdPlan"),
     P("PlanFfcParams", ["C11", "C04", "C03"], "_gkdi.py", "FFCDHParameters", "Gkdi.ffcParamsPlan"),
     P("PlanFfcKey", ["C11", "C04", "C03", "C05"], "_gkdi.py", "FFCDHKey", "Gkdi.ffcKeyPlan"),
+    P("PlanKdfParams", ["C11", "C02", "C05"], "_gkdi.py", "KDFParameters", "Gkdi.kdfParamsPlan"),
 ]
 
 
@@ -713,6 +714,18 @@ def plan_steps(fn):
                 raise Unsupported(f"length guard {ast.unparse(t)[:60]}")
             steps.append(f".guardLen {expr(t.comparators[0])}")
             continue
+        if isinstance(st, ast.If) and isinstance(st.test, ast.BoolOp) and isinstance(st.test.op, ast.Or):
+            # if view[a:b].tobytes() != b"..." or view[c:d].tobytes() != b"...": raise ValueError(...)
+            if not (not st.orelse and len(st.body) == 1 and isinstance(st.body[0], ast.Raise) and isinstance(st.body[0].exc, ast.Call)
+                    and ast.unparse(st.body[0].exc.func) == "ValueError"):
+                raise Unsupported(f"if statement {ast.unparse(st.test)[:60]}")
+            for t in st.test.values:
+                if not (isinstance(t, ast.Compare) and len(t.ops) == 1 and isinstance(t.ops[0], ast.NotEq) and isinstance(t.comparators[0], ast.Constant)
+                        and isinstance(t.comparators[0].value, bytes)):
+                    raise Unsupported(f"magic disjunct {ast.unparse(t)[:60]}")
+                a, b = const_slice(tobytes_of(t.left))
+                steps.append(f".magicLit {a} {b} [" + ", ".join(str(x) for x in t.comparators[0].value) + "]")
+            continue
         if isinstance(st, ast.If):
             # if view[a:b].tobytes() != cls.magic: raise ValueError(...)
             t = st.test
@@ -757,7 +770,16 @@ def plan_steps(fn):
         if isinstance(v, ast.Call) and isinstance(v.func, ast.Attribute) and v.func.attr == "decode":
             if not (len(v.args) == 1 and not v.keywords and isinstance(v.args[0], ast.Constant) and v.args[0].value == "utf-16-le"):
                 raise Unsupported(f"decode form {ast.unparse(v)[:60]}")
-            n = prefix_len(tobytes_of(v.func.value), True)
+            sl = tobytes_of(v.func.value)
+            if isinstance(sl, ast.Subscript) and isinstance(sl.slice, ast.Slice) and sl.slice.lower is not None:
+                # name = view[lo : hi - k].tobytes().decode("utf-16-le")
+                up = sl.slice.upper
+                if not (isinstance(sl.value, ast.Name) and sl.value.id == "view" and sl.slice.step is None and isinstance(up, ast.BinOp) and isinstance(up.op, ast.Sub)
+                        and isinstance(up.right, ast.Constant) and isinstance(up.right.value, int) and up.right.value >= 0):
+                    raise Unsupported(f"text slice {ast.unparse(sl)[:60]}")
+                steps.append(f'.textSub "{tgt}" {expr(sl.slice.lower)} {expr(up.left)} {up.right.value}')
+                continue
+            n = prefix_len(sl, True)
             if n not in ints:
                 raise Unsupported(f"length {n} is not a decoded integer")
             steps.append(f'.text "{tgt}" "{n}"')
